@@ -16,7 +16,9 @@ run_one() {
 }
 export -f run_one
 # one property at a time per slot: changes of the same property never run concurrently (they share evidence/<id>.json)
-for P in $(ls seeded | grep -v "\." | sed 's/_r[0-9]*$//' | sort -u); do
+# optional arguments: the property ids to restrict the run to
+ALL=$(ls seeded | grep -v "\." | sed 's/_r[0-9]*$//' | sort -u)
+for P in ${@:-$ALL}; do
   ( for d in $(ls seeded | grep "^$P\(_r[0-9]*\)\?$"); do run_one $d; done ) &
   while [ $(jobs -r | wc -l) -ge 8 ]; do sleep 2; done
 done
